@@ -2,6 +2,7 @@ package evmsim
 
 import (
 	"bytes"
+	"flag"
 	"fmt"
 	"math/big"
 	"os"
@@ -498,7 +499,13 @@ func exhaustiveDirect(t *testing.T) {
 }
 
 func TestC12(t *testing.T) {
-	if os.Getenv("EVMSIM_SKIP_EXHAUSTIVE") == "" { // (switch used only to measure how fast the seeded part alone finds a mutant)
+	// the deterministic section is left out when one recorded case is being replayed, and on request (the
+	// switch is only used to measure how fast the seeded part alone finds a mutant)
+	replay := false
+	if f := flag.Lookup("rapid.failfile"); f != nil && f.Value.String() != "" {
+		replay = true
+	}
+	if os.Getenv("EVMSIM_SKIP_EXHAUSTIVE") == "" && !replay {
 		exhaustiveDirect(t)
 	}
 	if t.Failed() {
